@@ -100,6 +100,17 @@ def run(res, tier):
                               f"{name} in {fname} (same text compiled under several names in one process): reference does "
                               f"not designate this file's statement (file ok={f_ok}, line ok={l_ok}, extent ok={t_ok})")
     reset_globals()
+    # 2a. the program lives under directories named like the package, like site-packages, with dots and spaces
+    for sub_ in ("nada_dsl/examples", "site-packages/nada_dsl", "my.project/nada dsl", "src/nada_dsl_programs"):
+        rows3, _ = T4.run_catalogue(filename="prog_in_dir.py", subdir=sub_)
+        for name, f_ok, l_ok, t_ok in rows3:
+            evals += 1
+            if not (f_ok and l_ok and t_ok):
+                res.violation({"property": "C19", "kind": "entry-dir", "entry": name, "dir": sub_},
+                              f"{name} in a program stored under .../{sub_}/: reference does not designate the user's statement "
+                              f"(file ok={f_ok}, line ok={l_ok}, extent ok={t_ok})")
+                break
+    reset_globals()
     # 2b. whole MIRs: generated programs compiled from files through compile_script, several programs per process
     #     sharing modules (K10 rendering); every element of every MIR is checked against the program text
     mir_stats = whole_mirs(res, tier)
@@ -171,6 +182,13 @@ def replay(obj):
             if "raw" in o:
                 bad += srcref.check(o["raw"], dict(files), op_lines, per_prog[fn])
         print(bad[:4] or "ok")
+        if bad:
+            print("VIOLATION property=C19 replay=(replayed)")
+        return 1 if bad else 0
+    if obj.get("kind") == "entry-dir":
+        rows, _ = T4.run_catalogue(filename="prog_in_dir.py", subdir=obj["dir"])
+        bad = [r for r in rows if not all(r[1:])]
+        print(bad[:3] or "ok")
         if bad:
             print("VIOLATION property=C19 replay=(replayed)")
         return 1 if bad else 0
